@@ -31,6 +31,46 @@ CHECKS = {
          "Every game's display and move record are parsed and compared token by token with what was played; coverage minima require all four promotion pieces with and without capture, both castlings and en passant.",
          "Trusted: " + ORACLE + "; token grammar of the move record as described in DESIGN.md."),
 }
+
+CHECKS.update({
+ "C03": ("exploration", "metamorphic monitor: observables before/after queries, push+pop of every generated move, search-shaped nested push/pop", "7/C03",
+         "Every observable the property names (FEN, hash, score, king squares, length, both move lists, board) is compared before and after get_moves/fen/Display, after push+pop of every move of both lists including unchecked king captures, and at every unwind level of nested walks of depth 2-6, on text-imported endgames and on positions inside games that cross the endgame threshold.",
+         "No oracle beyond equality of the engine's own observables; positions outside the generated set are not covered."),
+ "C06": ("exploration", "history monitor: search histories over one shared table, announced move checked against the oracle; UCI transcripts of the real binary", "7/C06",
+         "Thousands of driver calls inside histories that share one transposition table (same game in playing order, siblings, text twins differing only in rights/ep, shallower-after-deeper limits, stops, resets); every announced move is checked for legality by the independent oracle, in-process and through `bestmove` lines of the binary.",
+         "Trusted: " + ORACLE + ". A hash collision between two generated roots would be needed for a wrong cached move; not forced here."),
+ "C07": ("fault_enumeration", "fault injection: the stop flag is flipped by a cfg hook at every node-entry poll index of small searches (stratified beyond), result checked against the oracle; UCI go+stop with the search-thread start delayed", "7/C07",
+         "For searches of depth 1-3 whose undisturbed run has at most ~1200 (quick) / 4000 (thorough) polls EVERY stop point is tried; larger searches use a ladder of stop points. The verdict is on poll counts (logical time), never wall-clock.",
+         "The flag is only read at the node-entry poll (hook sits directly before it). Trusted: " + ORACLE),
+ "C08": ("exploration", "gauged runs: iteration/poll gauges decide 'never deeper than N' logically; all (M,N) limit pairs on one table; tiny endings to depth 255 and unlimited under a poll budget; release and debug-assertions builds", "7/C08",
+         "All ordered pairs (search to M, then limit N) on one table for random roots; limits up to 255 and unlimited runs on tiny endings where depth really gets past 33; a node expanded in an iteration deeper than N is the violation and ends the run, so non-termination is decided without a wall clock.",
+         "'As long as it is left running' is restated as: until it ends by itself or a poll budget (2.5M quick / 40M thorough polls) is reached."),
+ "C09": ("exploration", "reference-model monitor: table-less engine search (table wiped at every poll by a cfg hook) vs exhaustive unpruned negamax on the same generator/evaluation", "7/C09",
+         "Thousands of (root, depth 1-4, fresh/pre-filled history) cases; the reference has no windows, ordering or table. Scores compared after clamping the mate range; skipped cases are counted by reason.",
+         "The reference shares generator and evaluation with the engine by construction; cases over the node budget are not judged."),
+ "C10": ("exploration", "solver-backed monitor: mates in one/two found by the oracle's own solver, engine answers checked; dead roots must give no move; UCI `bestmove none` only on dead roots", "7/C10",
+         "Positions from check-biased games and K+Q/K+R v K families are classified by an independent solver; mate-in-one roots are searched at limits 3-6 and unlimited, mate-in-two roots at 5-7 and unlimited (the move must keep a forced mate), dead roots at 1-5.",
+         "'Keeps the forced mate' is decided by a bounded solver (mate within four further moves, 3M nodes); undecided cases are counted, not judged. Trusted: " + ORACLE),
+ "C13": ("exploration", "trace checker over `go` transcripts of the real binary: the printed budget decides; wall-clock only as reproduced tiebreak", "7/C13",
+         "Thousands of clock/increment/movetime combinations incl. the whole underflow band and boundary values, both sides to move, release and debug-assertions binaries; the `info time` value must be a finite non-negative integer not above the time available; short budgets are also waited for.",
+         "`go` with clocks but no increments computes no budget (outside the quantifier)."),
+ "C14": ("fault_enumeration", "trace checker: sequential session model replayed over the stdin/stdout history of the real binary; delays injected at five named schedule points (cfg hooks); lost stops decided on hook event order", "7/C14",
+         "Directed scenarios for every ordering named in the property x delays {0,2,20,150} ms, plus random scripts with the GUI pattern (next position+go the moment bestmove is received), 16 sessions in parallel; exactly-once bestmove, whole-line protocol tokens, readyok during search, no panic, exit 0.",
+         "Interleavings explored = those reachable by stretching the five named points (+ OS noise); absence of output counts only when reproduced in an isolated re-run."),
+ "C15": ("exploration", "debug-assertions (unsafe-precondition) build + capacity gauges (cfg hooks abort before an unchecked push at capacity) under boundary-seeking workloads; Miri on small workloads in thorough", "7/C15",
+         "Hill-climb to maximal mobility over reader-accepted positions, 398-ply games followed by searches to the depth cap, the real self-play loop with deterministic per-move poll budgets and on the binary, every accepted mutant FEN; high-water marks of both unchecked buffers are reported.",
+         "ASan/valgrind are blind to these intra-object overflows (measured); the checked build and the gauges are the detectors."),
+ "C17": ("exploration", "classification monitor: mutated FEN strings classified by a strict independent grammar (must-accept / must-reject / don't-care), reader outcome compared; panics caught in worker subprocesses; command level on the real binary", "7/C17",
+         "Hundreds of thousands of strings from 21 mutation operators over all fields of well-formed renderings (4-6 fields, both en-passant conventions); must-accept strings must import as exactly the described position with its legal moves, must-reject strings must be refused, nothing may crash; release and debug-assertions builds.",
+         "The strict grammar in oracle/src/fen.rs defines well-formedness; non-canonical but unambiguous spellings and insane positions are don't-care."),
+ "C18": ("exploration", "trace checker: every `info pv` line captured at fd 1 of search workers / the binary is replayed move by move in the oracle", "7/C18",
+         "All PV lines printed during the C06-style shared-table histories (in-process workers and UCI sessions) are replayed from their root through the independent rules.",
+         "Trusted: " + ORACLE),
+ "C19": ("exploration", "differential monitor: byte equality of complete stdout transcripts of the real binary across perturbed runs (taskset, nice, ASLR off, padded environment, delays, 16-way load, pre-history + ucinewgame)", "7/C19",
+         "Each (root, depth) reference transcript is compared with seven perturbed runs including the segment after `ucinewgame` following arbitrary pre-histories.",
+         "Hardware and allocator cannot be varied in this sandbox."),
+})
+
 PENDING = {}
 
 def main():
